@@ -441,6 +441,35 @@ pub fn reference_form_grammars() -> Vec<String> {
 }
 
 /// See batch 0d in `work`.
+/// Literal-escape product: every escape sequence the grammar-of-grammars
+/// admits in a string or regex literal (a backslash followed by *any*
+/// character, multi-byte ones included) x what stands before and after it x
+/// quote kind x the place a literal may appear in (terminal recognizer, inline
+/// terminal, meta-data value, regex recognizer).
+pub fn literal_escape_grammars() -> Vec<String> {
+    let escapes = ["\\'", "\\\"", "\\\\", "\\n", "\\t", "\\x", "\\0", "\\é", "\\→", "\\😀", "\\ ", "\\/", "\\\u{301}", "é", "→", "\\\\\\n", "\\\\é"];
+    let pres = ["", "a", "é"];
+    let posts = ["", "b", "ш"];
+    let mut v = vec![];
+    for e in escapes {
+        for pre in pres {
+            for post in posts {
+                let body = format!("{pre}{e}{post}");
+                for q in ['\'', '"'] {
+                    // an unescaped quote of the same kind would end the literal early;
+                    // that is a (valid or invalid) text like any other, keep it
+                    let lit = format!("{q}{body}{q}");
+                    v.push(format!("A: T;\nterminals\nT: {lit};\n"));
+                    v.push(format!("A: {lit} B;\nterminals\nB: 'b';\nX: {lit};\n"));
+                    v.push(format!("A: B {{doc: {lit}}};\nterminals\nB: 'b' {{note: {lit}, 5}};\n"));
+                }
+                v.push(format!("A: T;\nterminals\nT: /{body}/;\n"));
+            }
+        }
+    }
+    v
+}
+
 pub fn meta_data_grammars(thorough: bool) -> Vec<String> {
     const PROD: &[&str] = &["", "left", "right", "shift", "reduce", "5", "15", "nops", "nopse", "dynamic", "Kind", "left, 15", "right, 5, nops", "user: 1", "user: 'x', left"];
     const TERM: &[&str] = &["", "left", "right", "shift", "reduce", "5", "15", "prefer", "finish", "nofinish", "dynamic", "15, left", "user: 1.5"];
@@ -664,6 +693,26 @@ pub fn work(env: &Env, ctx: &Ctx, w: usize, nw: usize, plan: &Plan) -> Value {
             };
             let o = run_case(env, &case);
             record(ctx, &mut st, &case, "pristine-meta-data", &o, counter, &mut viol);
+        }
+    }
+
+    // 0e. literal-escape product (fault-free): see `literal_escape_grammars`
+    for (k, text) in literal_escape_grammars().into_iter().enumerate() {
+        for glr in [false, true] {
+            counter += 1;
+            if !mine(counter) {
+                continue;
+            }
+            let spec = if glr { Spec::glr_default() } else { Spec::lr_default() };
+            let case = Case {
+                grammar: GrammarSrc { id: format!("escape:{k}"), stem: "escape".into(), bytes: text.clone().into_bytes() },
+                damage: "none (literal-escape product, fault-free baseline)".into(),
+                spec,
+                world: World::reference(),
+                actions: None,
+            };
+            let o = run_case(env, &case);
+            record(ctx, &mut st, &case, "pristine-literal-escape", &o, counter, &mut viol);
         }
     }
 
